@@ -928,6 +928,9 @@ func (f *frame) applyContract(fs *FuncSpec, actuals []CV, res *types.Tuple, st *
 		if strings.Contains(c.Text, "local(") {
 			continue // speaks about the callee's own locals: not part of what callers may assume
 		}
+		if strings.HasPrefix(c.Label, "_") {
+			continue // an internal clause (label _name): proved for the callee, not handed to callers
+		}
 		h := envPost.tr(c.E, true)
 		envPost.want(h, "Bool", c.E)
 		g.s.assumeUnder(pc, h.S)
